@@ -7,7 +7,7 @@
 (* the event violates.  Verdicts are total: a failing event is printed as    *)
 (* <<"FAIL", id, {clauses}>> and the run continues; <<"DONE", n>> proves      *)
 (* every event was consumed.                                                 *)
-EXTENDS Util, FA, Regex, JFA, JRE, Json, IOUtils
+EXTENDS Util, FA, Regex, CFG, PDA, TM, JFA, JRE, JCFG, JPDA, JTM, JENUM, Json, IOUtils
 
 Events == ndJsonDeserialize(IOEnv.EVENTS)
 
@@ -28,6 +28,15 @@ Fails(e) ==
     [] e.op = "re_simplify"   -> JReSimplify(e)
     [] e.op = "re_to_nfa"     -> JReToNfa(e)
     [] e.op = "dfa_to_re"     -> JDfaToRe(e)
+    [] e.op = "cfg_accepts"   -> JCfgAccepts(e)
+    [] e.op = "cyk_matrix"    -> JCykMatrix(e)
+    [] e.op = "chomsky_phase" -> JChomskyPhase(e)
+    [] e.op = "to_chomsky"    -> JToChomsky(e)
+    [] e.op = "derive"        -> JDerive(e)
+    [] e.op = "pda_accepts"   -> JPdaAccepts(e)
+    [] e.op = "pda_transform" -> JPdaTransform(e)
+    [] e.op = "tm_run"        -> JTmRun(e)
+    [] e.op = "enum"          -> JEnum(e)
     [] OTHER                  -> {"unknown_op"}
 
 Init == l = 1
